@@ -429,6 +429,9 @@ class Serializer:
         Raises:
             ValueError: if the
         """
+        meas_ops = list(meas_ops)
+        if len({op['key'] for op in meas_ops}) != len(meas_ops):
+            raise ValueError('Measurement keys must be unique for IonQ API.')
         key_values = [f'{op["key"]}{chr(31)}{op["targets"]}' for op in meas_ops]
         full_str = chr(30).join(key_values)
         # IonQ maximum value size for metadata.
